@@ -110,6 +110,47 @@ def analyse(repo):
     f['dependentObjectsShrinks'] = any(isinstance(c, ast.Call) and isinstance(c.func, ast.Attribute) and c.func.attr in ('pop', 'remove', 'clear')
                                        and ast.unparse(c.func.value) == 'dependent_objects' for c in ast.walk(pr)) or \
                                    any(isinstance(n, ast.Delete) and 'dependent_objects' in ast.unparse(n) for n in ast.walk(pr))
+    # ---- the transaction around the statements
+    body = fl.body
+    idx_try = next(i for i, st in enumerate(body) if isinstance(st, ast.Try))
+    f['flushBeforeTry'] = [ast.unparse(st).replace('\n', ' ; ') for st in body[:idx_try] if not (isinstance(st, ast.Assert))]
+    f['flushFinally'] = [ast.unparse(st).replace('\n', ' ; ') for st in body[idx_try].finalbody]
+    start = []
+    for cls, meth in (('Entity', '_save_created_'), ('Entity', '_save_updated_'), ('Entity', '_save_deleted_'), ('Set', 'remove_m2m'), ('Set', 'add_m2m')):
+        m = find_method(tree, cls, meth)
+        vals = set()
+        for c in ast.walk(m):
+            if isinstance(c, ast.Call) and isinstance(c.func, ast.Attribute) and c.func.attr == '_exec_sql':
+                kw = [k for k in c.keywords if k.arg == 'start_transaction']
+                vals.add(ast.unparse(kw[0].value) if kw else 'absent')
+        start.append([meth, ','.join(sorted(vals))])
+    f['startTransactionArgs'] = start
+    ex = find_method(tree, 'Database', '_exec_sql')
+    f['execSqlFlagLines'] = [ast.unparse(st).replace('\n', ' ; ') for st in ex.body
+                             if isinstance(st, ast.If) and 'immediate' in ast.unparse(st)]
+    f['execSqlOrder'] = [('flag' if isinstance(st, ast.If) and 'start_transaction' in ast.unparse(st.test) else
+                          'prepare' if 'prepare_connection_for_query_execution' in ast.unparse(st) else
+                          'execute' if 'provider.execute' in ast.unparse(st) else
+                          'in_transaction' if isinstance(st, ast.If) and 'cache.in_transaction = True' in ast.unparse(st) else '')
+                         for st in ex.body]
+    f['execSqlOrder'] = [x for x in f['execSqlOrder'] if x]
+    pc = find_method(tree, 'SessionCache', 'prepare_connection_for_query_execution')
+    f['prepareBeginTests'] = [ast.unparse(n.test) for n in ast.walk(pc) if isinstance(n, ast.If) and 'set_transaction_mode' in ast.unparse(n.body)
+                              and 'flush_and_commit' not in ast.unparse(n)]
+    fc = find_method(tree, 'SessionCache', 'flush_and_commit')
+    f['flushAndCommit'] = [ast.unparse(st).replace('\n', ' ; ') for st in fc.body]
+    cm = find_method(tree, 'SessionCache', 'commit')
+    f['commitSteps'] = [ast.unparse(n).replace('\n', ' ; ') for n in ast.walk(cm)
+                        if (isinstance(n, ast.If) and 'in_transaction' in ast.unparse(n.test)) or
+                           (isinstance(n, ast.Assign) and ast.unparse(n) == 'cache.immediate = True')]
+    ssrc = open(os.path.join(repo, 'pony', 'orm', 'dbproviders', 'sqlite.py')).read()
+    stree = ast.parse(ssrc)
+    stm = find_method(stree, 'SQLiteProvider', 'set_transaction_mode')
+    begin = []
+    for n in ast.walk(stm):
+        if isinstance(n, ast.If) and ast.unparse(n.test) == 'cache.immediate' and 'BEGIN' in ast.unparse(n):
+            begin = [ast.unparse(n.test)] + [ast.unparse(x) for x in n.body if isinstance(x, ast.Assign)]
+    f['sqliteBegin'] = begin
     return f
 
 
@@ -138,6 +179,15 @@ def render(f):
          'def slotTail : List String := ' + llist(f['slotTail']),
          'def principalSteps : List String := ' + llist(f['principalSteps']),
          'def dependentObjectsShrinks : Bool := ' + ('true' if f['dependentObjectsShrinks'] else 'false'),
+         'def flushBeforeTry : List String := ' + llist(f['flushBeforeTry']),
+         'def flushFinally : List String := ' + llist(f['flushFinally']),
+         'def startTransactionArgs : List (String × String) := ' + lpairs(f['startTransactionArgs']),
+         'def execSqlFlagLines : List String := ' + llist(f['execSqlFlagLines']),
+         'def execSqlOrder : List String := ' + llist(f['execSqlOrder']),
+         'def prepareBeginTests : List String := ' + llist(f['prepareBeginTests']),
+         'def flushAndCommit : List String := ' + llist(f['flushAndCommit']),
+         'def commitSteps : List String := ' + llist(f['commitSteps']),
+         'def sqliteBegin : List String := ' + llist(f['sqliteBegin']),
          'end PonyVerif.Gen.FlushShape', '']
     return '\n'.join(L)
 
